@@ -427,6 +427,16 @@ class StrEval:
                 return v[1]
             if isinstance(v, Lit):
                 return v.s
+            if isinstance(v, tuple) and v and v[0] == "tuple":
+                items = []
+                for x in v[1]:
+                    if isinstance(x, tuple) and x and x[0] == "const":
+                        items.append(x[1])
+                    elif isinstance(x, Lit):
+                        items.append(x.s)
+                    else:
+                        return Unknown("env tuple")
+                return tuple(items)
             return Unknown("env")
         if isinstance(e, ast.Attribute) and isinstance(e.value, ast.Name) and e.value.id in env:
             base = env[e.value.id]
